@@ -30,7 +30,8 @@ class Validation:
           "Line: {}\n".format(str(self))+
           "begin > end: {} > {}".format(gfapy.posvalue(beg),
                                         gfapy.posvalue(end)))
-      if gfapy.islastpos(beg) and not gfapy.islastpos(end):
+      if gfapy.islastpos(beg) and (not gfapy.islastpos(end) or
+          gfapy.posvalue(beg) != gfapy.posvalue(end)):
         raise gfapy.FormatError(
           "Line: {}\n".format(str(self))+
           "Wrong use of $ marker\n"+
